@@ -26,6 +26,19 @@ of the object graph for values built by open(), generator expressions, threading
 ASSUMPTIONS = ["dill serialises lambdas, closures and bound methods; cma / scipy qmc / structlog objects are picklable (external)"]
 
 
+def _with_helpers(ctx, m):
+    """AST nodes of a method and of the private helpers of its class that it calls (file handling moved into a helper)."""
+    fns, todo = [m], [m]
+    while todo:
+        g = todo.pop()
+        for cs in ctx.res.callsites(g):
+            for t in cs.targets:
+                if t.cls is m.cls and t.name.startswith("_") and not t.name.startswith("__") and t not in fns:
+                    fns.append(t)
+                    todo.append(t)
+    return fns
+
+
 def r19_1(ctx: Ctx):
     """R19.1 pickle_dump / pickle_load are effect-free on the tree and the RNGs; they dump self and return the loaded object."""
     obs = []
@@ -63,9 +76,10 @@ def r19_1(ctx: Ctx):
     elif not dumps:
         st_d = VIOLATION if not any(isinstance(c, ast.Call) for c in body_walk(d.node)) else INCONCLUSIVE
     obs.append(ctx.ob("R19.1", d, dumps[0] if dumps else d.node, status=st_d, detail="the whole tree object is dumped" if st_d == OK else f"pickle_dump dumps `{what}` instead of the tree itself: part of the state is missing from the snapshot" if st_d == VIOLATION else f"cannot follow what pickle_dump serialises (`{what}`) into the file", construct="dump-self"))
-    wb = [w for w in body_walk(d.node) if isinstance(w, ast.Call) and norm(w.func) == "open" and len(w.args) >= 2 and isinstance(w.args[1], ast.Constant)]
+    wb = [w for g_ in _with_helpers(ctx, d) for w in body_walk(g_.node) if isinstance(w, ast.Call) and norm(w.func) == "open" and len(w.args) >= 2 and isinstance(w.args[1], ast.Constant)]
     okm = bool(wb) and all("b" in w.args[1].value and "w" in w.args[1].value for w in wb)
-    obs.append(ctx.ob("R19.1", d, wb[0] if wb else d.node, status=OK if okm else VIOLATION, detail="binary write mode" if okm else "snapshot file is not opened in binary write mode", construct="dump-mode"))
+    any_open = [w for g_ in _with_helpers(ctx, d) for w in body_walk(g_.node) if isinstance(w, ast.Call) and norm(w.func).split(".")[-1] in ("open", "write_bytes")]
+    obs.append(ctx.ob("R19.1", d, wb[0] if wb else d.node, status=OK if okm else VIOLATION if wb else INCONCLUSIVE if any_open else VIOLATION, detail="binary write mode" if okm else "snapshot file is not opened in binary write mode", construct="dump-mode"))
     l = ctx.prog.own_method("DemeTree", "pickle_load")
     loads = [c for c in body_walk(l.node) if isinstance(c, ast.Call) and isinstance(c.func, ast.Attribute) and c.func.attr in ("load", "loads")]
     rets = [r for r in body_walk(l.node) if isinstance(r, ast.Return)]
